@@ -15,12 +15,43 @@ TARGETS = {
 JOBS = {"quick": 4, "thorough": 14}
 
 
+def fingerprint():
+    import hashlib
+    h = hashlib.sha256()
+    roots = [("/repo", ["engine", "Cargo.toml", "Cargo.lock"]), (FZ, ["fuzz/Cargo.toml", "fuzz/Cargo.lock", "fuzz/build.rs", "fuzz/fuzz_targets"])]
+    for base, items in roots:
+        files = []
+        for it in items:
+            p = os.path.join(base, it)
+            if os.path.isdir(p):
+                for d, dn, fn in os.walk(p):
+                    if "/target" in d or d.endswith("/fuzz") and base == "/repo" or "/engine/fuzz" in d:
+                        continue
+                    files += [os.path.join(d, f) for f in fn]
+            elif os.path.isfile(p):
+                files.append(p)
+        for f in sorted(files):
+            h.update(f.encode())
+            try:
+                h.update(open(f, "rb").read())
+            except OSError:
+                pass
+    return h.hexdigest()
+
+
 def build():
+    # same reason as in ./check: the engine's build script makes cargo rebuild it every time;
+    # skip only when a content hash over all inputs equals the one of the last successful build
+    fp = fingerprint()
+    stamp = os.path.join(FZ, "fuzz", "target", ".inputs.sha256")
+    if os.path.isfile(stamp) and open(stamp).read().strip() == fp and all(os.path.isfile(binary(t)) for t in TARGETS):
+        return
     r = subprocess.run(["cargo", "+nightly", "fuzz", "build"], cwd=FZ, env=ENV, stdout=subprocess.PIPE, stderr=subprocess.STDOUT, text=True)
     if r.returncode != 0:
         print(r.stdout[-3000:])
         print("INCONCLUSIVE: cargo fuzz build failed")
         sys.exit(2)
+    open(stamp, "w").write(fp)
 
 
 def binary(t):
